@@ -96,7 +96,7 @@ func extractC20Run(repo, out string) error {
 		Env:  append(os.Environ(), "GOFLAGS=-mod=mod", "GOPROXY=off", "GOSUMDB=off", "GOTOOLCHAIN=local"),
 	}
 	pats := []string{"./x/crosschain/precompile", "./x/staking/precompile", "./x/crosschain/types", "./x/staking/types", "./x/evm/types",
-		"./x/crosschain/keeper", "./x/staking/keeper", "./x/erc20/keeper", "./x/gov/keeper"}
+		"./x/crosschain/keeper", "./x/staking/keeper", "./x/erc20/keeper", "./x/gov/keeper", "./ante"}
 	pkgs, err := packages.Load(cfg, pats...)
 	if err != nil {
 		return err
@@ -232,24 +232,68 @@ func extractC20Run(repo, out string) error {
 			uniq = append(uniq, s)
 		}
 	}
-	sb.WriteString("/-- potentially panicking constructs in every precompile method's `Run`, the in-package functions it reaches and the\nfx-core keeper methods it calls directly; `req` = what must hold of the decoded arguments for the site to be safe -/\ndef runSites : List RunSite := [\n")
-	for i, s := range uniq {
-		sep := ","
-		if i == len(uniq)-1 {
-			sep = ""
+	emitSites := func(name, doc string, list []c20RunSite) {
+		fmt.Fprintf(&sb, "/-- %s -/\ndef %s : List RunSite := [\n", doc, name)
+		for i, s := range list {
+			sep := ","
+			if i == len(list)-1 {
+				sep = ""
+			}
+			req := "none"
+			if s.Req != "" {
+				req = "some (" + s.Req + ")"
+			}
+			var ds []string
+			for _, d := range s.Doms {
+				ds = append(ds, lq(d))
+			}
+			fmt.Fprintf(&sb, "  { pkg := %s, recv := %s, meth := %s, line := %d, kind := %s, expr := %s, argsType := %s, req := %s, guarded := %v, guard := %s, doms := [%s] }%s\n",
+				lq(s.Pkg), lq(s.Recv), lq(s.Meth), s.Line, lq(s.Kind), lq(s.Expr), lq(s.ArgsType), req, s.Guarded, lq(s.Guard), strings.Join(ds, ", "), sep)
 		}
-		req := "none"
-		if s.Req != "" {
-			req = "some (" + s.Req + ")"
-		}
-		var ds []string
-		for _, d := range s.Doms {
-			ds = append(ds, lq(d))
-		}
-		fmt.Fprintf(&sb, "  { pkg := %s, recv := %s, meth := %s, line := %d, kind := %s, expr := %s, argsType := %s, req := %s, guarded := %v, guard := %s, doms := [%s] }%s\n",
-			lq(s.Pkg), lq(s.Recv), lq(s.Meth), s.Line, lq(s.Kind), lq(s.Expr), lq(s.ArgsType), req, s.Guarded, lq(s.Guard), strings.Join(ds, ", "), sep)
+		sb.WriteString("]\n\n")
 	}
-	sb.WriteString("]\n\n")
+	emitSites("runSites", "potentially panicking constructs in every precompile method's `Run`, the in-package functions it reaches and the fx-core keeper methods it calls directly; `req` = what must hold of the decoded arguments for the site to be safe", uniq)
+
+	// ---- D. the ante package: every function of ante/*.go ----
+	x.sites = nil
+	if p := x.pkgs["ante"]; p != nil {
+		var fs []*types.Func
+		for obj := range x.declOf {
+			if x.pkgOf[obj] == p {
+				fs = append(fs, obj)
+			}
+		}
+		sort.Slice(fs, func(i, j int) bool { return fs[i].FullName() < fs[j].FullName() })
+		for _, f := range fs {
+			x.scanFunc(c20Method{}, f, 0, map[*types.Func]bool{})
+		}
+	}
+	var anteSites []c20RunSite
+	seenA := map[string]bool{}
+	sort.SliceStable(x.sites, func(i, j int) bool {
+		a, b := x.sites[i], x.sites[j]
+		if a.Recv != b.Recv {
+			return a.Recv < b.Recv
+		}
+		if a.Meth != b.Meth {
+			return a.Meth < b.Meth
+		}
+		if a.Line != b.Line {
+			return a.Line < b.Line
+		}
+		return a.Expr < b.Expr
+	})
+	for _, s := range x.sites {
+		if s.Pkg != "ante" {
+			continue
+		}
+		k := fmt.Sprint(s.Recv, "|", s.Meth, "|", s.Kind, "|", s.Expr, "|", s.Guarded)
+		if !seenA[k] {
+			seenA[k] = true
+			anteSites = append(anteSites, s)
+		}
+	}
+	emitSites("anteSites", "potentially panicking constructs in every function of the ante package (decorators, fee checker, signature gas consumer), with the local guard that dominates each", anteSites)
 	sort.Strings(x.unknowns)
 	var us []string
 	for _, u := range x.unknowns {
@@ -1290,6 +1334,32 @@ func (s *c20Scan) index(e *ast.IndexExpr) {
 					s.add(e, "index", s.src(e), fmt.Sprintf(".lenLe %s %s", lq(g), lq(f)), false, "i ranges over "+s.src(rs.X))
 					return
 				}
+				// `X := make(T, len(Y))` and `i` ranges over Y
+				ys := s.src(rs.X)
+				if xid, ok := e.X.(*ast.Ident); ok {
+					made := false
+					ast.Inspect(s.fd.Body, func(m ast.Node) bool {
+						if as, ok := m.(*ast.AssignStmt); ok && len(as.Lhs) == 1 && len(as.Rhs) == 1 {
+							if lid, ok := as.Lhs[0].(*ast.Ident); ok && info.Defs[lid] != nil && info.Defs[lid] == info.Uses[xid] {
+								if ce, ok := as.Rhs[0].(*ast.CallExpr); ok && s.src(ce.Fun) == "make" && len(ce.Args) == 2 && s.src(ce.Args[1]) == "len("+ys+")" {
+									made = true
+								}
+							}
+						}
+						return true
+					})
+					if made {
+						s.add(e, "index", s.src(e), "", true, xs+" := make(…, len("+ys+")) and "+id.Name+" ranges over "+ys)
+						return
+					}
+				}
+				// `if len(Y) != len(X) { return }` before `for i := range Y { … X[i] … }`
+				for _, d := range s.doms(e) {
+					if d == "len("+ys+") != len("+xs+")" || d == "len("+xs+") != len("+ys+")" {
+						s.add(e, "index", s.src(e), "", true, "for "+id.Name+" := range "+ys+" after `if "+d+" { return }`")
+						return
+					}
+				}
 				s.add(e, "index", s.src(e), "", false, "index ranges over "+s.src(rs.X))
 				return
 			}
@@ -1299,6 +1369,18 @@ func (s *c20Scan) index(e *ast.IndexExpr) {
 			if fs, ok := par.(*ast.ForStmt); ok && fs.Cond != nil && s.src(fs.Cond) == id.Name+" < len("+xs+")" {
 				s.add(e, "index", s.src(e), "", true, "for …; "+s.src(fs.Cond))
 				return
+			}
+			// `for i := 0; i < n; i++ { … x[i] … }` after `if n != len(x) { return }`
+			if fs, ok := par.(*ast.ForStmt); ok && fs.Cond != nil {
+				if be, ok := fs.Cond.(*ast.BinaryExpr); ok && be.Op == token.LSS && s.src(be.X) == id.Name {
+					n := s.src(be.Y)
+					for _, d := range s.doms(e) {
+						if d == n+" != len("+xs+")" || d == "len("+xs+") != "+n || d == n+" > len("+xs+")" || d == "len("+xs+") < "+n {
+							s.add(e, "index", s.src(e), "", true, "for …; "+s.src(fs.Cond)+" after `if "+d+" { return }`")
+							return
+						}
+					}
+				}
 			}
 		}
 		// sort.Slice(x, func(i, j int) bool { … x[i] … }): indices supplied by sort are in range
@@ -1354,7 +1436,13 @@ func (s *c20Scan) call(e *ast.CallExpr) {
 		if rt != nil {
 			// sdkmath narrowing conversions panic when the value does not fit
 			if (name == "Int64" || name == "Uint64") && namedFrom(rt, "cosmossdk.io/math", "Int", "Uint", "LegacyDec") {
-				s.add(e, "narrow", s.src(e), "", false, "")
+				g, gs := false, ""
+				for _, d := range s.doms(e) {
+					if d == "in: "+s.src(f.X)+".Is"+name+"()" || d == "!"+s.src(f.X)+".Is"+name+"()" {
+						g, gs = true, d
+					}
+				}
+				s.add(e, "narrow", s.src(e), "", g, gs)
 			}
 			if (name == "Int64" || name == "Uint64") && isBigIntPtr(rt) {
 				s.add(e, "trunc", s.src(e), "", true, "(*big.Int)."+name+" truncates, it does not panic")
